@@ -11,6 +11,7 @@ import (
 	pb "github.com/ChainSafe/gossamer/dot/network/proto"
 	"github.com/ChainSafe/gossamer/dot/types"
 	"github.com/ChainSafe/gossamer/lib/common"
+	"github.com/ChainSafe/gossamer/lib/crypto/ed25519"
 	"github.com/ChainSafe/gossamer/lib/grandpa"
 	"github.com/ChainSafe/gossamer/pkg/scale"
 	"github.com/ChainSafe/gossamer/verifsim/kernel"
@@ -34,6 +35,87 @@ type netProto struct {
 	// declShort: a SCALE byte string inside the (protobuf) message declares more than it carries
 	declShort func(in []byte) bool
 	inner     func(k *kernel.K, valid []byte, f func(m mutant))
+	// big makes a valid message whose repeated part has n elements (the scale phase of runNet)
+	big func(shape, n int) []byte
+}
+
+// ---- large valid messages: cost must stay proportional to the length ---------
+
+func tinyExts(w, n int) []types.Extrinsic {
+	exts := make([]types.Extrinsic, n)
+	for i := range exts {
+		exts[i] = make([]byte, w)
+		for j := range exts[i] {
+			exts[i][j] = byte(i + j)
+		}
+	}
+	return exts
+}
+
+func bigBlockData() *types.BlockData {
+	h := types.NewHeader(common.Hash{1}, common.Hash{2}, common.Hash{3}, 77, types.NewDigest())
+	return &types.BlockData{Hash: h.Hash(), Header: h}
+}
+
+func bigBlockResponse(shape, n int) []byte {
+	r := &messages.BlockResponseMessage{}
+	w := shape / 3 % 3
+	switch shape % 3 {
+	case 0: // one block whose body has n tiny extrinsics
+		bd := bigBlockData()
+		bd.Body = types.NewBody(tinyExts(w, n))
+		r.BlockData = append(r.BlockData, bd)
+	case 1: // n/8 small blocks
+		for i := 0; i < n/8+1; i++ {
+			h := types.NewHeader(common.Hash{byte(i)}, common.Hash{1}, common.Hash{2}, uint(i), types.NewDigest())
+			r.BlockData = append(r.BlockData, &types.BlockData{Hash: h.Hash(), Header: h, Body: types.NewBody(tinyExts(w, 2))})
+		}
+	default: // one block with a justification of n bytes and a body
+		bd := bigBlockData()
+		j := make([]byte, n)
+		bd.Justification = &j
+		bd.Body = types.NewBody(tinyExts(w, n/4))
+		r.BlockData = append(r.BlockData, bd)
+	}
+	return mustEnc(r)
+}
+
+func bigGrandpa(shape, n int) []byte {
+	votes := make([]grandpa.SignedVote, n/4+1)
+	for i := range votes {
+		votes[i] = grandpa.SignedVote{Vote: grandpa.Vote{Hash: common.Hash{byte(i), byte(i >> 8)}, Number: uint32(i)}, AuthorityID: ed25519.PublicKeyBytes{byte(i), byte(i >> 8), 7}}
+		votes[i].Signature[0] = byte(i)
+	}
+	var m grandpa.GrandpaMessage
+	if shape%2 == 1 {
+		m = &grandpa.CatchUpResponse{SetID: 1, Round: 2, PreVoteJustification: votes, PreCommitJustification: votes[:len(votes)/2], Hash: common.Hash{9}, Number: 9}
+	} else {
+		cm := &grandpa.CommitMessage{Round: 2, SetID: 1, Vote: votes[0].Vote}
+		for _, v := range votes {
+			cm.Precommits = append(cm.Precommits, v.Vote)
+			cm.AuthData = append(cm.AuthData, grandpa.AuthData{Signature: v.Signature, AuthorityID: v.AuthorityID})
+		}
+		m = cm
+	}
+	b, err := encodeGrandpaNet(m)
+	if err != nil {
+		panic(err)
+	}
+	return b
+}
+
+func bigStateResponse(shape, n int) []byte {
+	m := &pb.StateResponse{}
+	e := &pb.KeyValueStateEntry{StateRoot: make([]byte, 32)}
+	for i := 0; i < n/2+1; i++ {
+		e.Entries = append(e.Entries, &pb.StateEntry{Key: []byte{byte(i), byte(i >> 8)}, Value: []byte{byte(i)}})
+	}
+	m.Entries = append(m.Entries, e)
+	b, err := proto.Marshal(m)
+	if err != nil {
+		panic(err)
+	}
+	return b
 }
 
 type encoder interface{ Encode() ([]byte, error) }
@@ -290,7 +372,10 @@ var netProtos = []netProto{
 			return mustEnc(&network.TransactionMessage{Extrinsics: []types.Extrinsic(*bodyOf(k, l))})
 		},
 		decode: func(in []byte) (any, error) { return network.VerifBytesDecodeTransactionMessage(in) },
-		encode: encodeMsg, typ: reflect.TypeOf([]types.Extrinsic{})},
+		encode: encodeMsg, typ: reflect.TypeOf([]types.Extrinsic{}),
+		big: func(shape, n int) []byte {
+			return mustEnc(&network.TransactionMessage{Extrinsics: tinyExts(shape%3, n)})
+		}},
 	{name: "transactions-handshake",
 		build: func(k *kernel.K, l string) []byte { // the real handshake is the empty message
 			hs, _ := network.VerifBytesDecodeTransactionHandshake(nil)
@@ -309,7 +394,7 @@ var netProtos = []netProto{
 			err := m.Decode(in)
 			return m, err
 		},
-		encode: encodeMsg, giant: protoGiantBlockResponse, declShort: protoDeclShortBlockResponse, inner: innerBlockResponse},
+		encode: encodeMsg, giant: protoGiantBlockResponse, declShort: protoDeclShortBlockResponse, inner: innerBlockResponse, big: bigBlockResponse},
 	{name: "grandpa",
 		build: func(k *kernel.K, l string) []byte {
 			_, m := grandpaMsgOf(k, l)
@@ -319,7 +404,7 @@ var netProtos = []netProto{
 			}
 			return b
 		},
-		decode: decodeGrandpaNet, encode: encodeGrandpaNet, typ: tGrandpaMessage},
+		decode: decodeGrandpaNet, encode: encodeGrandpaNet, typ: tGrandpaMessage, big: bigGrandpa},
 	{name: "grandpa-handshake",
 		build: func(k *kernel.K, l string) []byte {
 			return mustEnc(&grandpa.GrandpaHandshake{Role: common.NetworkRole(k.Choose(6, l+"role"))})
@@ -371,7 +456,7 @@ var netProtos = []netProto{
 			m := new(messages.StateResponse)
 			err := m.Decode(in)
 			return m, err
-		}},
+		}, big: bigStateResponse},
 }
 
 func runNet(k *kernel.K) {
@@ -415,6 +500,50 @@ func runNet(k *kernel.K) {
 	}
 	if p.inner != nil {
 		p.inner(k, enc, each)
+	}
+	// scale phase: a large but honest-looking message (thousands of tiny elements, well inside the
+	// protocol's size limit) and a few damaged copies of it go through the same oracle; the linear
+	// allocation bound then catches a decoder whose cost grows faster than the input
+	if p.big != nil && k.Bool(1, 4, "scale-phase") {
+		n := []int{1500, 4000, 10000, 25000}[k.Choose(4, "scale-n")]
+		shape := k.Choose(18, "scale-shape")
+		bigEnc := p.big(shape, n)
+		k.Probe("scale-phase:" + p.name)
+		k.Event("scale", "%s shape=%d n=%d len=%d", p.name, shape, n, len(bigEnc))
+		// per element a decoder may well allocate a few hundred bytes (slice headers, reflection) for
+		// one byte of input: the constant of the absolute bound is raised for these inputs, and
+		// proportionality is decided by growth: twice the elements, at most three times the allocation
+		c.allocC = 4096
+		each(mutant{"scale", fmt.Sprintf("n=%d", n), bigEnc})
+		for i := 0; i < 4; i++ {
+			cp := append([]byte{}, bigEnc...)
+			switch k.Choose(3, "scale-damage") {
+			case 0:
+				cp = cp[:k.Choose(len(cp), "scale-cut")]
+			case 1:
+				cp[k.Choose(len(cp), "scale-flip")] ^= 1 << uint(k.Choose(8, "scale-bit"))
+			default:
+				cp = append(cp, bigEnc[:k.Choose(len(bigEnc), "scale-append")]...)
+			}
+			each(mutant{"scale-damaged", fmt.Sprintf("n=%d", n), cp})
+		}
+		c.allocC = 256
+		twice := p.big(shape, 2*n)
+		cost := func(in []byte) uint64 {
+			return allocExact(func() { guard(func() { _, _ = p.decode(in) }) })
+		}
+		a1, a2 := cost(bigEnc), cost(twice)
+		if a2 > 3*a1+(1<<20) {
+			// confirm once more: the smaller pair counts
+			if b1, b2 := cost(bigEnc), cost(twice); b2 < a2 {
+				a1, a2 = b1, b2
+			}
+		}
+		k.Probe("scale-growth-checked")
+		if a2 > 3*a1+(1<<20) {
+			c.report("alloc", "superlinear-decode-cost:"+p.name, "%s: a valid message with %d elements (%d bytes) costs %d bytes of allocation to decode, the same message with %d elements (%d bytes) costs %d: more than three times as much for twice the input",
+				p.name, n, len(bigEnc), a1, 2*n, len(twice), a2)
+		}
 	}
 	kinds := make([]string, 0, len(stats))
 	for kd := range stats {
